@@ -522,6 +522,101 @@ def rule_asserts(ctx: Ctx, rule: str = "assert-on-input") -> None:
 
 
 # -------------------------------------------------- dereference coverage
+def reader_dispatch(prog: Program, tag: str):
+    """Paths of the file reader on a well-formed document (a list holding one dictionary that has every key it is
+    asked for) whose entry's type field equals `tag`: [(terminal, exception class, [callee names in order])].
+    The dispatch is read from the simulation, so an if/elif chain, early returns, a table of (tag, loader) pairs or
+    extracted helpers all give the same answer."""
+    from .pathsim import Sim, const, is_const
+
+    fi = prog.func("fileio.read_contracts_from_file")
+
+    def assume(v):
+        if not isinstance(v, tuple) or not v:
+            return None
+        if v[0] == "cmp" and v[1] in ("Eq", "NotEq"):
+            for a, b in ((v[2], v[3]), (v[3], v[2])):
+                if is_const(b) and isinstance(b[1], str) and isinstance(a, tuple) and a and a[0] == "sub" and a[2] == const("type"):
+                    return const((b[1] == tag) == (v[1] == "Eq"))
+        if v[0] == "cmp" and v[1] in ("In", "NotIn") and is_const(v[2]) and isinstance(v[2][1], str):
+            return const(v[1] == "In")
+        if v[0] == "call" and (v[1] == "isinstance" or str(v[1]).endswith("isfile")):
+            return const(True)
+        return None
+
+    out = []
+    for p in Sim(prog, fi, assume=assume, loop_iters=(1,)).paths():
+        out.append((p.terminal, getattr(p, "exc_cls", None), [e["callee"] for e in p.events if e["kind"] == "call"], [e for e in p.events if e["kind"] == "call"]))
+    return out
+
+
+def reader_key_discipline(prog: Program):
+    """Simulate the file reader on a document of the right shape (isinstance tests pass) with one entry, every other
+    test left open.  -> (reads, absent):
+    reads[k] = {"n": number of reads of <entry>[k] seen, "unchecked": number not preceded by a passed presence test},
+    absent[k] = set of outcomes (exception class, or None for 'no raise') of the paths on which k was found missing."""
+    from .pathsim import Sim, const, is_const, walk
+
+    fi = prog.func("fileio.read_contracts_from_file")
+
+    def assume(v):
+        if isinstance(v, tuple) and v and v[0] == "call" and (v[1] == "isinstance" or str(v[1]).endswith("isfile")):
+            return const(True)
+        return None
+
+    reads: Dict[str, Dict[str, int]] = {}
+    absent: Dict[str, Set[Optional[str]]] = {}
+    for p in Sim(prog, fi, assume=assume, loop_iters=(1,)).paths():
+        present: Set[str] = set()
+        missing: Optional[str] = None
+        for e in p.events:
+            if e["kind"] == "branch":
+                t = e["test"]
+                neg = False
+                while isinstance(t, tuple) and t[0] == "un" and t[1] == "Not":
+                    t, neg = t[2], not neg
+                if isinstance(t, tuple) and t[0] == "cmp" and t[1] in ("In", "NotIn") and is_const(t[2]) and isinstance(t[2][1], str):
+                    there = (t[1] == "In") == (bool(e["taken"]) != neg)
+                    if there:
+                        present.add(t[2][1])
+                    elif missing is None:
+                        missing = t[2][1]
+            vals = [e.get(f) for f in ("test", "args", "kws", "recv", "value", "target", "f")]
+            for v in vals:
+                for x in walk(v):
+                    if isinstance(x, tuple) and len(x) == 3 and x[0] == "sub" and is_const(x[2]) and isinstance(x[2][1], str) and isinstance(x[1], tuple) and x[1] and x[1][0] in ("iter", "param", "item"):
+                        k = x[2][1]
+                        r = reads.setdefault(k, {"n": 0, "unchecked": 0})
+                        r["n"] += 1
+                        if k not in present:
+                            r["unchecked"] += 1
+        if missing is not None:
+            absent.setdefault(missing, set()).add(getattr(p, "exc_cls", None) if p.terminal != "return" else None)
+    return reads, absent
+
+
+def written_tags(prog: Program) -> Dict[str, str]:
+    """type tag -> writer method, read off write_contracts_to_file (entry["type"] = TAG ; entry["data"] = c.<writer>())."""
+    w = prog.func("fileio.write_contracts_to_file")
+    written: Dict[str, str] = {}
+
+    def collect(stmts: List[ast.stmt], tag: Optional[str]) -> None:
+        cur = tag
+        for st in stmts:
+            if isinstance(st, ast.Assign) and isinstance(st.targets[0], ast.Subscript) and isinstance(st.targets[0].slice, ast.Constant):
+                k = st.targets[0].slice.value
+                if k == "type" and isinstance(st.value, ast.Constant):
+                    cur = st.value.value
+                if k == "data" and cur is not None and isinstance(st.value, ast.Call) and isinstance(st.value.func, ast.Attribute):
+                    written[cur] = st.value.func.attr
+            for f in ("body", "orelse"):
+                if hasattr(st, f) and isinstance(getattr(st, f), list):
+                    collect(getattr(st, f), cur)
+
+    collect(w.body, None)
+    return written
+
+
 def rule_reader_validates(ctx: Ctx, rule: str = "reader-validates") -> None:
     """The file reader checks the shape of the JSON document and of every entry before dereferencing it, with a
     documented error; every representation it dispatches on is validated before construction."""
@@ -529,48 +624,48 @@ def rule_reader_validates(ctx: Ctx, rule: str = "reader-validates") -> None:
     exc = ExcTable(prog)
     fi = prog.func("fileio.read_contracts_from_file")
     cfg = CFG(fi.node, exc)
-    # 1. subscripts entry["k"] must be dominated by a check `"k" in entry` (if-raise with a documented class)
-    checks: Dict[str, List[int]] = {}
-    for n in cfg.stmts(("test",)):
-        t = n.ast
-        for k in _membership_keys(t):
-            # the failing branch must raise a documented error
-            checks.setdefault(k, []).append(n.id)
-    roots = with_new_helpers(prog, fi)
-    loopvars = set()
-    for root in roots:
-        for node in ast.walk(root):
-            if isinstance(node, ast.For) and isinstance(node.target, ast.Name):
-                loopvars.add(node.target.id)
-        if root is not fi.node:
-            # an extracted helper receives the entry (or the document) as a parameter
-            loopvars |= {a.arg for a in root.args.args}
+    # 1. every read entry["k"] comes after a passed presence test `"k" in entry` whose failing side raises a documented
+    #    error (read from the simulation: the test may sit in a loop over a tuple of keys, a table, or a helper)
+    try:
+        reads, absent = reader_key_discipline(prog)
+    except AnalysisError as ex:
+        ctx.cannot_decide(rule, fi.key, "read_contracts_from_file: entry keys are checked before they are read", str(ex))
+        reads, absent = {}, {}
     seen = 0
-    subs = [sub for root in roots for sub in ast.walk(root)]
-    for sub in subs:
-        if True:
-            if isinstance(sub, ast.Subscript) and isinstance(sub.value, ast.Name) and sub.value.id in loopvars and isinstance(sub.slice, ast.Constant) and isinstance(sub.slice.value, str):
-                k = sub.slice.value
-                seen += 1
-                construct = "read_contracts_from_file: entry[%r] is checked before it is read" % k
-                okc = any(_key_checked_in(root, k) for root in roots)
-                if okc:
-                    ctx.ok(rule, fi.key, construct, nontrivial=False)
-                else:
-                    ctx.violation(rule, fi.key, construct, "entry[%r] is dereferenced without a preceding `%r in entry` check that raises a documented error (KeyError escapes for a malformed file)" % (k, k), where="%s:%d" % (fi.module.relpath, sub.lineno))
+    for k in sorted(reads):
+        seen += reads[k]["n"]
+        construct = "read_contracts_from_file: entry[%r] is checked before it is read" % k
+        bad_out = sorted(c for c in absent.get(k, set()) if c is None or not documented(exc, c))
+        if reads[k]["unchecked"]:
+            ctx.violation(rule, fi.key, construct, "entry[%r] is dereferenced without a preceding `%r in entry` check that raises a documented error (KeyError escapes for a malformed file)" % (k, k), where=fi.where)
+        elif bad_out:
+            ctx.violation(rule, fi.key, construct, "a missing %r is answered by %s, not by a documented error" % (k, ["no raise" if c is None else c for c in bad_out]), where=fi.where)
+        else:
+            ctx.ok(rule, fi.key, construct, nontrivial=False)
     ctx.floor("entry dereferences in the file reader", seen, 3)
-    # 2. every dispatched representation is validated before construction
-    for node in (x for root in roots for x in ast.walk(root)):
-        if isinstance(node, ast.If) and isinstance(node.test, ast.Compare) and isinstance(node.test.comparators[0], ast.Constant) and isinstance(node.test.comparators[0].value, str):
-            tag = node.test.comparators[0].value
-            body_calls = [norm(c.func) for st in node.body for c in ast.walk(st) if isinstance(c, ast.Call)]
-            constructs = [c for c in body_calls if c.endswith("from_dict") or c.endswith("from_strings")]
-            validated = any(c.endswith("validate_contract_dict") for c in body_calls)
-            construct = "read_contracts_from_file: entries of type %s are validated before construction" % tag
-            if constructs and not validated:
-                ctx.violation(rule, fi.key, construct, "%s is called on unvalidated file data (a missing or ill-typed field escapes as TypeError/KeyError)" % constructs[0], where="%s:%d" % (fi.module.relpath, node.lineno))
-            elif constructs:
-                ctx.ok(rule, fi.key, construct)
+    # 2. every dispatched representation is validated before construction (read from the simulated dispatch)
+    tags = sorted(written_tags(prog))
+    if not tags:
+        ctx.cannot_decide(rule, fi.key, "read_contracts_from_file: dispatched representations", "the writer's type tags could not be read")
+    for tag in tags:
+        construct = "read_contracts_from_file: entries of type %s are validated before construction" % tag
+        try:
+            paths = reader_dispatch(prog, tag)
+        except AnalysisError as ex:
+            ctx.cannot_decide(rule, fi.key, construct, str(ex))
+            continue
+        bad = None
+        built = False
+        for _t, _c, names, _evs in paths:
+            pos = [i for i, c in enumerate(names) if c.endswith(".from_dict") or c.endswith(".from_strings")]
+            for i in pos:
+                built = True
+                if not any(c.endswith("validate_contract_dict") for c in names[:i]):
+                    bad = names[i]
+        if bad is not None:
+            ctx.violation(rule, fi.key, construct, "%s is called on unvalidated file data (a missing or ill-typed field escapes as TypeError/KeyError)" % bad.lstrip("."), where=fi.where)
+        elif built:
+            ctx.ok(rule, fi.key, construct)
 
 
 def _membership_keys(t: ast.AST) -> List[str]:
@@ -1320,3 +1415,211 @@ def rule_division_sites(ctx: Ctx, rule: str = "division-by-zero") -> None:
                 continue
             ctx.cannot_decide(rule, fi.key, construct, "no evidence found that the denominator is non-zero")
     ctx.floor("division sites", n, 5)
+
+
+# ------------------------------------------------------------------ ordering of objects that have no order (C14, C06)
+_ORDER_DUNDERS = ("__lt__", "__gt__", "__le__", "__ge__")
+
+
+def _unorderable_classes(prog: Program) -> Set[str]:
+    """Classes of the package that define __eq__/__hash__ but none of the ordering methods (their instances cannot be
+    sorted: `sorted([Var('a'), Var('b')])` raises TypeError)."""
+    out = set()
+    for cname, ci in prog.classes.items():
+        if any(prog.resolve_method(cname, d) is not None for d in _ORDER_DUNDERS):
+            continue
+        if any(norm(b).split(".")[-1] in ("NamedTuple", "Enum", "str", "int", "float", "tuple") for b in ci.node.bases):
+            continue
+        if any(norm(d).split("(")[0].split(".")[-1] == "dataclass" and "order=True" in norm(d) for d in ci.node.decorator_list):
+            continue
+        out.add(cname)
+    return out
+
+
+def rule_unorderable_sort(ctx: Ctx, rule: str = "unorderable-sort") -> None:
+    """sorted()/min()/max()/.sort() without a key over a collection whose elements are objects of a class without
+    an order raises TypeError as soon as two elements meet - typically only for the rare input with two offenders.
+    The element class is read from annotations (parameters, returns of the package's functions, annotated fields)."""
+    prog = ctx.prog
+    bad = _unorderable_classes(prog)
+
+    def ann_elem(a: Optional[ast.AST]) -> Optional[str]:
+        """List[C] / Sequence[C] / Iterable[C] / Set[C] / Tuple[C, ...] / Optional[...] of those -> C"""
+        if a is None:
+            return None
+        if isinstance(a, ast.Constant) and isinstance(a.value, str):
+            try:
+                a = ast.parse(a.value, mode="eval").body
+            except SyntaxError:
+                return None
+        if isinstance(a, ast.Subscript):
+            head = norm(a.value).split(".")[-1]
+            inner = a.slice
+            if head == "Optional":
+                return ann_elem(inner)
+            if head in ("List", "Sequence", "Iterable", "Set", "FrozenSet", "Collection", "list", "set", "Tuple", "tuple", "Iterator"):
+                first = inner.elts[0] if isinstance(inner, ast.Tuple) and inner.elts else inner
+                nm = norm(first).split(".")[-1].strip("'\"")
+                return nm if nm in bad else None
+        return None
+
+    # attributes / properties / functions that give collections of an unorderable class
+    coll_attr: Dict[str, str] = {}
+    coll_func: Dict[str, str] = {}
+    for fi in prog.funcs.values():
+        if isinstance(fi.node, ast.Lambda):
+            continue
+        c = ann_elem(fi.node.returns)
+        if c:
+            (coll_attr if fi.kind == "property" else coll_func)[fi.name] = c
+        for node in ast.walk(fi.node):
+            if isinstance(node, ast.AnnAssign) and isinstance(node.target, ast.Attribute) and ann_elem(node.annotation):
+                coll_attr[node.target.attr] = ann_elem(node.annotation)
+    for ci in prog.classes.values():
+        for f, _d in ci.fields:
+            pass
+    PASS_THROUGH = {"list_union", "list_diff", "list_intersection", "list", "tuple", "set", "reversed", "copy"}
+
+    def elem_class(e: ast.AST, fi: FuncInfo, local: Dict[str, str], depth: int = 0) -> Optional[str]:
+        if depth > 6:
+            return None
+        if isinstance(e, ast.Name):
+            return local.get(e.id)
+        if isinstance(e, ast.Attribute):
+            return coll_attr.get(e.attr)
+        if isinstance(e, ast.BinOp) and isinstance(e.op, ast.Add):
+            return elem_class(e.left, fi, local, depth + 1) or elem_class(e.right, fi, local, depth + 1)
+        if isinstance(e, ast.Call):
+            nm = e.func.attr if isinstance(e.func, ast.Attribute) else e.func.id if isinstance(e.func, ast.Name) else None
+            if nm in PASS_THROUGH:
+                if nm == "copy" and isinstance(e.func, ast.Attribute):
+                    return elem_class(e.func.value, fi, local, depth + 1)
+                for a in e.args:
+                    c = elem_class(a, fi, local, depth + 1)
+                    if c:
+                        return c
+                return None
+            if nm in coll_func:
+                return coll_func[nm]
+            if nm in bad and False:
+                return None
+        if isinstance(e, (ast.ListComp, ast.GeneratorExp, ast.SetComp)) and len(e.generators) == 1:
+            g = e.generators[0]
+            src = elem_class(g.iter, fi, local, depth + 1)
+            if isinstance(e.elt, ast.Name) and isinstance(g.target, ast.Name) and e.elt.id == g.target.id:
+                return src
+            if isinstance(e.elt, ast.Call) and isinstance(e.elt.func, ast.Name) and e.elt.func.id in bad:
+                return e.elt.func.id
+            return None
+        if isinstance(e, (ast.List, ast.Tuple, ast.Set)) and e.elts:
+            for x in e.elts:
+                if isinstance(x, ast.Call) and isinstance(x.func, ast.Name) and x.func.id in bad:
+                    return x.func.id
+        return None
+
+    n = 0
+    for fi in prog.all_functions():
+        if isinstance(fi.node, ast.Lambda) or fi.module.base == "plots":
+            continue
+        local: Dict[str, str] = {}
+        a = fi.node.args
+        for arg in a.posonlyargs + a.args + a.kwonlyargs:
+            c = ann_elem(arg.annotation)
+            if c:
+                local[arg.arg] = c
+        # one forward pass over simple assignments (enough for straight-line helpers)
+        for node in ast.walk(fi.node):
+            if isinstance(node, ast.AnnAssign) and isinstance(node.target, ast.Name) and ann_elem(node.annotation):
+                local[node.target.id] = ann_elem(node.annotation)
+        for _round in range(2):
+            for node in ast.walk(fi.node):
+                if isinstance(node, ast.Assign) and len(node.targets) == 1 and isinstance(node.targets[0], ast.Name):
+                    c = elem_class(node.value, fi, local)
+                    if c:
+                        local.setdefault(node.targets[0].id, c)
+        for node in ast.walk(fi.node):
+            if not isinstance(node, ast.Call):
+                continue
+            f = node.func
+            what = None
+            if isinstance(f, ast.Name) and f.id in ("sorted", "min", "max") and len(node.args) == 1:
+                what, arg = f.id, node.args[0]
+            elif isinstance(f, ast.Attribute) and f.attr == "sort" and not node.args:
+                what, arg = ".sort", f.value
+            if what is None:
+                continue
+            n += 1
+            construct = "%s: %s(%s) compares elements that have an order" % (fi.key, what, norm(arg)[:40])
+            if any(k.arg == "key" for k in node.keywords):
+                ctx.ok(rule, fi.key, construct, nontrivial=False)
+                continue
+            c = elem_class(arg, fi, local)
+            if c:
+                ctx.violation(rule, fi.key, construct, "the elements are %s objects, which define no ordering: with two or more of them the call raises TypeError (an undocumented error, and the intended refusal is never raised)" % c, where="%s:%d" % (fi.module.relpath, node.lineno))
+            else:
+                ctx.ok(rule, fi.key, construct, nontrivial=False)
+    ctx.floor("ordering calls (sorted/min/max/.sort) examined", n, 2)
+
+
+# ------------------------------------------------------------------ in-place arithmetic on integer arrays (C14)
+def rule_array_inplace_cast(ctx: Ctx, rule: str = "array-inplace-cast") -> None:
+    """`arr op= <float>` on a numpy array whose elements may all be Python ints (built from a list with an int
+    literal and no dtype) raises numpy's casting TypeError - only on the inputs for which every element happens to be
+    the int literal."""
+    prog = ctx.prog
+
+    def is_floaty(e: ast.AST) -> bool:
+        if isinstance(e, ast.Constant):
+            return isinstance(e.value, float)
+        if isinstance(e, ast.UnaryOp):
+            return is_floaty(e.operand)
+        if isinstance(e, ast.BinOp):
+            return isinstance(e.op, ast.Div) or is_floaty(e.left) or is_floaty(e.right)
+        if isinstance(e, ast.IfExp):
+            return is_floaty(e.body) or is_floaty(e.orelse)
+        if isinstance(e, ast.Call) and isinstance(e.func, ast.Name) and e.func.id == "float":
+            return True
+        return False
+
+    def may_be_all_int(e: ast.AST) -> bool:
+        """np.array(<display or comprehension>) without dtype whose element expression has an int literal alternative"""
+        if not (isinstance(e, ast.Call) and norm(e.func).split(".")[-1] in ("array", "asarray") and e.args):
+            return False
+        if any(k.arg == "dtype" for k in e.keywords) or len(e.args) > 1:
+            return False
+        src = e.args[0]
+        elts: List[ast.AST] = []
+        if isinstance(src, (ast.ListComp, ast.GeneratorExp)):
+            elts = [src.elt]
+        elif isinstance(src, (ast.List, ast.Tuple)):
+            elts = list(src.elts)
+
+        def int_alt(x: ast.AST) -> bool:
+            if isinstance(x, ast.Constant):
+                return isinstance(x.value, int) and not isinstance(x.value, bool)
+            if isinstance(x, ast.IfExp):
+                return int_alt(x.body) or int_alt(x.orelse)
+            if isinstance(x, ast.UnaryOp):
+                return int_alt(x.operand)
+            return False
+
+        return bool(elts) and any(int_alt(x) for x in elts)
+
+    n = 0
+    for fi in prog.all_functions():
+        if isinstance(fi.node, ast.Lambda) or fi.module.base == "plots":
+            continue
+        fl = Flow(fi.node)
+        for node in ast.walk(fi.node):
+            if isinstance(node, ast.AugAssign) and isinstance(node.target, ast.Name) and isinstance(node.op, (ast.Mult, ast.Add, ast.Sub, ast.Div)):
+                ds = fl.defs.get(node.target.id, [])
+                arr = [d for d in ds if may_be_all_int(d)]
+                if not arr:
+                    continue
+                n += 1
+                construct = "%s: `%s` keeps the array's element type" % (fi.key, norm(node)[:50])
+                if isinstance(node.op, ast.Div) or is_floaty(node.value):
+                    ctx.violation(rule, fi.key, construct, "%s is built by %s, whose elements are all the int literal for some inputs; the in-place operation with a float then raises numpy's casting TypeError instead of the documented error" % (node.target.id, norm(arr[0])[:70]), where="%s:%d" % (fi.module.relpath, node.lineno))
+                else:
+                    ctx.ok(rule, fi.key, construct)
+    ctx.floor("in-place operations on possibly-integer arrays", n, 1)
